@@ -16,7 +16,8 @@ use std::io::{BufRead, Write};
 
 fn obs(s: &LeanString, before: (u64, u64, u64)) -> (Vec<u8>, bool, u64, usize) {
     let st = shim::end_call(before);
-    (s.as_bytes().to_vec(), s.is_heap_allocated(), st.d_a, s.capacity())
+    // requests to the global allocator during the measured call (hidden temporaries) count as allocations of the call
+    (s.as_bytes().to_vec(), s.is_heap_allocated(), st.d_a + crate::gate::take_extra(), s.capacity())
 }
 
 // ------------------------------------------------------------------------------------------ serde
@@ -384,7 +385,7 @@ macro_rules! int_types {
                     $name => {
                         let v: $t = if neg { <$t>::try_from(0i128.checked_sub(i128::try_from(mag).ok()?)?).ok()? } else { <$t>::try_from(mag).ok()? };
                         let before = shim::begin_call(&[]);
-                        let s = v.to_lean_string();
+                        let s = crate::gate::mx(|| v.to_lean_string());
                         let (t, h, d, c) = obs(&s, before);
                         Some((t, h, d, c, v.to_string().into_bytes()))
                     }
@@ -392,7 +393,7 @@ macro_rules! int_types {
                         let v: $t = if neg { <$t>::try_from(0i128.checked_sub(i128::try_from(mag).ok()?)?).ok()? } else { <$t>::try_from(mag).ok()? };
                         let nz = NonZero::new(v)?;
                         let before = shim::begin_call(&[]);
-                        let s = nz.to_lean_string();
+                        let s = crate::gate::mx(|| nz.to_lean_string());
                         let (t, h, d, c) = obs(&s, before);
                         Some((t, h, d, c, nz.to_string().into_bytes()))
                     }
@@ -418,11 +419,11 @@ fn conv_128(ty: &str, neg: bool, mag: u128) -> Option<(Vec<u8>, bool, u64, usize
             }
             if ty == "u128" {
                 before = shim::begin_call(&[]);
-                (mag.to_lean_string(), mag.to_string())
+                (crate::gate::mx(|| mag.to_lean_string()), mag.to_string())
             } else {
                 let nz = NonZero::new(mag)?;
                 before = shim::begin_call(&[]);
-                (nz.to_lean_string(), nz.to_string())
+                (crate::gate::mx(|| nz.to_lean_string()), nz.to_string())
             }
         }
         "i128" | "nz_i128" => {
@@ -436,11 +437,11 @@ fn conv_128(ty: &str, neg: bool, mag: u128) -> Option<(Vec<u8>, bool, u64, usize
             };
             if ty == "i128" {
                 before = shim::begin_call(&[]);
-                (v.to_lean_string(), v.to_string())
+                (crate::gate::mx(|| v.to_lean_string()), v.to_string())
             } else {
                 let nz = NonZero::new(v)?;
                 before = shim::begin_call(&[]);
-                (nz.to_lean_string(), nz.to_string())
+                (crate::gate::mx(|| nz.to_lean_string()), nz.to_string())
             }
         }
         _ => return None,
@@ -525,7 +526,7 @@ fn float_rec(is32: bool, bits: u64) -> Value {
     let before = shim::begin_call(&[]);
     let (s, cls, neg, rt) = if is32 {
         let f = f32::from_bits(bits as u32);
-        let s = f.to_lean_string();
+        let s = crate::gate::mx(|| f.to_lean_string());
         let back: Result<f32, _> = s.as_str().parse();
         let rt = match back {
             Ok(b) => b.to_bits() == f.to_bits() || (b.is_nan() && f.is_nan()),
@@ -535,7 +536,7 @@ fn float_rec(is32: bool, bits: u64) -> Value {
         (s, cls, f.is_sign_negative(), rt)
     } else {
         let f = f64::from_bits(bits);
-        let s = f.to_lean_string();
+        let s = crate::gate::mx(|| f.to_lean_string());
         let back: Result<f64, _> = s.as_str().parse();
         let rt = match back {
             Ok(b) => b.to_bits() == f.to_bits() || (b.is_nan() && f.is_nan()),
@@ -573,7 +574,7 @@ pub fn conv(out_dir: &str, files: usize, thorough: bool, seed: u64) -> i32 {
     // ---- bool, char, String, LeanString (C15)
     for b in [false, true] {
         let before = shim::begin_call(&[]);
-        let s = b.to_lean_string();
+        let s = crate::gate::mx(|| b.to_lean_string());
         let (t, h, d, c) = obs(&s, before);
         recs.push(json!({"k":"bool","v":b,"text":t,"heap":h,"dA":d,"cap":c}));
         *counts.entry("bool".into()).or_default() += 1;
@@ -585,7 +586,7 @@ pub fn conv(out_dir: &str, files: usize, thorough: bool, seed: u64) -> i32 {
     for cp in cps {
         let Some(ch) = char::from_u32(cp) else { continue };
         let before = shim::begin_call(&[]);
-        let s = ch.to_lean_string();
+        let s = crate::gate::mx(|| ch.to_lean_string());
         let (t, h, d, c) = obs(&s, before);
         recs.push(json!({"k":"char","cp":cp,"text":t,"heap":h,"dA":d,"cap":c,"std":ch.to_string().as_bytes()}));
         *counts.entry("char".into()).or_default() += 1;
@@ -606,12 +607,12 @@ pub fn conv(out_dir: &str, files: usize, thorough: bool, seed: u64) -> i32 {
             for via in ["string", "lean"] {
                 let text: (Vec<u8>, bool, u64, usize) = if via == "string" {
                     let before = shim::begin_call(&[]);
-                    let l = s.to_lean_string();
+                    let l = crate::gate::mx(|| s.to_lean_string());
                     obs(&l, before)
                 } else {
                     let src = LeanString::from(s.as_str());
                     let before = shim::begin_call(&[]);
-                    let l = src.to_lean_string();
+                    let l = crate::gate::mx(|| src.to_lean_string());
                     let o = obs(&l, before);
                     // cloning never allocates (C08): report it through the storage predicate's dA only when it is the first buffer
                     (o.0, o.1, if o.1 { 1 } else { 0 } + o.2, o.3)
@@ -801,7 +802,7 @@ pub fn sweep(out_dir: &str, what: &str) -> i32 {
                         "i32" => (x as u32 as i32).to_lean_string().as_str() == (x as u32 as i32).to_string(),
                         "f32" => {
                             let f = f32::from_bits(x as u32);
-                            let s = f.to_lean_string();
+                            let s = crate::gate::mx(|| f.to_lean_string());
                             match s.as_str().parse::<f32>() {
                                 Ok(b) => b.to_bits() == f.to_bits() || (b.is_nan() && f.is_nan()),
                                 Err(_) => false,
